@@ -515,6 +515,23 @@ pub fn run_cost(args: &Args) {
 
 pub const RATIO_LIMIT: f64 = 2.6;
 
+/// Growth of the last doubling of a (input bytes, cost) series: 2 x the marginal cost per input byte of the last step over the
+/// steepest marginal cost of any earlier step whose increment exceeds `floor`. Where the marginal cost never falls this is the
+/// plain ratio of successive increments (linear 2, quadratic 4); a step that got *cheaper* (another buffering regime for larger
+/// values) does not make the next, ordinary one look super-linear.
+pub fn growth(pts: &[(f64, f64)], floor: f64) -> Option<f64> {
+    if pts.len() < 3 {
+        return None;
+    }
+    let m: Vec<(f64, f64)> = pts.windows(2).map(|w| ((w[1].1 - w[0].1) / (w[1].0 - w[0].0).max(1.0), w[1].1 - w[0].1)).collect();
+    let prev = m[..m.len() - 1].iter().filter(|(_, d)| *d > floor).map(|(x, _)| *x).fold(0.0f64, f64::max);
+    let (a, b) = (pts[pts.len() - 2].0, pts[pts.len() - 1].0);
+    if prev <= 0.0 || b - a < 0.25 * a {
+        return None; // nothing to compare with, or the family's generator did not actually grow the input
+    }
+    Some(2.0 * m[m.len() - 1].0 / prev)
+}
+
 pub fn run_c15(args: &Args, tier: &str, seed: u64) -> Report {
     let max: usize = args.u64("--max", tier_pick(tier, 256 << 10, 1 << 20)) as usize;
     let mut rep = Report::new("C15", tier, seed);
@@ -561,15 +578,13 @@ pub fn run_c15(args: &Args, tier: &str, seed: u64) -> Report {
                                 series[i].2 as f64
                             }
                         };
-                        let d1 = c(k - 2) - c(k - 3);
-                        let d2 = c(k - 1) - c(k - 2);
-                        if d1 > 1024.0 {
-                            let ratio = d2 / d1;
+                        let pts: Vec<(f64, f64)> = (0..k).map(|i| (series[i].0 as f64, c(i))).collect();
+                        if let Some(ratio) = growth(&pts, 1024.0) {
                             rep.max("max_ratio_x1000", (ratio * 1000.0) as i64);
                             if ratio > RATIO_LIMIT {
                                 rep.violation(
                                     format!("C15:superlinear-{what}:{fam}"),
-                                    format!("{key}: {what} grows by x{ratio:.2} per doubling at {n} input bytes (series (input, bytes, calls): {series:?}); linear is 2, quadratic 4, limit {RATIO_LIMIT}"),
+                                    format!("{key}: {what} grows by x{ratio:.2} per doubling (against the steepest earlier doubling) at {n} input bytes (series (input, bytes, calls): {series:?}); linear is 2, quadratic 4, limit {RATIO_LIMIT}"),
                                     replay.clone(),
                                 );
                                 stopped = true;
@@ -598,7 +613,8 @@ pub fn run_c15(args: &Args, tier: &str, seed: u64) -> Report {
                 }
                 let mut series: Vec<(usize, u64, u64)> = vec![];
                 let mut size = 2048usize;
-                while size <= lmax {
+                let mut suspect = [false; 2];
+                while size <= lmax || (suspect.iter().any(|s| *s) && size <= 2 * lmax) {
                     rep.eval();
                     let l0 = vkit::util::LOGGED_BYTES.load(std::sync::atomic::Ordering::Relaxed);
                     let (bytes, _calls, n, _out) = cost_parse(fam, size, use_async, 0);
@@ -610,11 +626,16 @@ pub fn run_c15(args: &Args, tier: &str, seed: u64) -> Report {
                     if k >= 3 {
                         for (what, sel) in [("logged-bytes", 1usize), ("alloc-bytes-while-logging", 2)] {
                             let c = |i: usize| if sel == 1 { series[i].1 as f64 } else { series[i].2 as f64 };
-                            let (d1, d2) = (c(k - 2) - c(k - 3), c(k - 1) - c(k - 2));
-                            if d1 > 1024.0 && d2 / d1 > RATIO_LIMIT {
+                            let pts: Vec<(f64, f64)> = (0..k).map(|i| (series[i].0 as f64, c(i))).collect();
+                            let g = growth(&pts, 1024.0).unwrap_or(0.0);
+                            let was_suspect = std::mem::replace(&mut suspect[sel - 1], false);
+                            if g > RATIO_LIMIT && !was_suspect {
+                                suspect[sel - 1] = true;
+                                rep.count("doublings_above_the_limit_awaiting_confirmation", 1);
+                            } else if g > RATIO_LIMIT {
                                 rep.violation(
                                     format!("C15:superlinear-{what}:{fam}"),
-                                    format!("{key}: {what} grows by x{:.2} per doubling at {n} input bytes (series (input, logged bytes, allocated bytes): {series:?}); linear is 2, quadratic 4, limit {RATIO_LIMIT}", d2 / d1),
+                                    format!("{key}: {what} grows by x{g:.2} per doubling (against the steepest earlier doubling, second doubling in a row above the limit) at {n} input bytes (series (input, logged bytes, allocated bytes): {series:?}); linear is 2, quadratic 4, limit {RATIO_LIMIT}"),
                                     vec!["c15".to_string(), "--logged".into(), "--only".into(), key.clone(), "--max".into(), size.to_string()],
                                 );
                                 stop = true;
@@ -630,7 +651,7 @@ pub fn run_c15(args: &Args, tier: &str, seed: u64) -> Report {
             }
         }
     }
-    rep.rule = format!("Delivery: whole reads (blocking) / 4 KiB chunks (async), and 13-byte short reads for the long-element families. Doubling families (nesting depth with/without member names and with multi-valued members, set width, set of collections, attribute count, group count, member count, value length, name length; malformed: unterminated collections, end-collection flood, member-name flood, additional values without attribute), sizes 2 KiB .. {} KiB, both parsers. Step measures, no wall clock: (A) bytes and calls allocated during parse (counting global allocator, this step) and (I) instruction counts under cachegrind (separate layer); with --logged additionally (L) the bytes the library formats into log records, and what it allocates meanwhile, when a logger takes every level (11 families to 64 KiB). Oracle: incremental ratio (c(4n)-c(2n))/(c(2n)-c(n)) <= {RATIO_LIMIT} and allocated bytes <= 256 KiB + 1024 x n; a series stops at its first violating doubling. evaluations = measured parses.", max >> 10);
+    rep.rule = format!("Delivery: whole reads (blocking) / 4 KiB chunks (async), and 13-byte short reads for the long-element families. Doubling families (nesting depth with/without member names and with multi-valued members, set width, set of collections, attribute count, group count, member count, value length, name length; malformed: unterminated collections, end-collection flood, member-name flood, additional values without attribute), sizes 2 KiB .. {} KiB, both parsers. Step measures, no wall clock: (A) bytes and calls allocated during parse (counting global allocator, this step) and (I) instruction counts under cachegrind (separate layer); with --logged additionally (L) the bytes the library formats into log records, and what it allocates meanwhile, when a logger takes every level (11 families to 64 KiB). Oracle: growth per doubling = 2 x marginal cost per input byte of the last doubling / steepest marginal cost of any earlier doubling (for a cost whose marginal cost never falls this is (c(4n)-c(2n))/(c(2n)-c(n)): linear 2, quadratic 4); a violation is two doublings in a row above {RATIO_LIMIT} - one doubling above it is a suspicion that the next doubling (taken even beyond the size cap) confirms or clears, so that a one-off step between buffering regimes is not mistaken for super-linear growth - or allocated bytes > 256 KiB + 1024 x n; a series stops at its first violation. evaluations = measured parses.", max >> 10);
     rep
 }
 
